@@ -1,5 +1,6 @@
 import DeltaModel.Proto
 import DeltaModel.Caller
+import DeltaModel.CallerScan
 open Proto Caller
 
 /-
@@ -11,6 +12,12 @@ Model driver for C20 (`drv_caller`).
   caller.enum <guess> <known|-> <queries>
       -> ok <n> <schedule>|<schedule>|...     (every gate schedule until the main thread is done)
   caller.shape -> ok bg=<stmt,..> pub=<stmt,..> query=<stmt,..> startup=<phase,..>   (statement order the model executes)
+  caller.describe <n> <x arg>*n
+      -> ok args <called> | ok argerror | ok other | PANIC <x message>     (`describe_calling_process` on that slice)
+  caller.scan <k> (<n> <x arg>*n)*k  <0|1> [<n> <x arg>*n]  <m> (<n> <x arg>*n)*m
+      -> ok guess <called|None> | PANIC <x message>   (`determine_calling_process` over ancestors, pid-1 process, neighbours)
+  caller.scanshape -> ok total=<0|1> cmd=<..> rest=<..> points=<n> pointsok=<0|1>
+  <called> = OtherGrep | <Variant> long=<x..,x..> short=<x..,..> last=<-|x..> file=<-|x..>
 Values: `pending` or `v<n>`.
 -/
 
@@ -70,4 +77,85 @@ def stepCaller (line : String) : String :=
       ++ " query=" ++ ",".intercalate queryShape ++ " startup=" ++ ",".intercalate startupShape
   | _ => "ERR"
 
-def main : IO Unit := serve stepCaller
+/-! ### The scan callback (`DeltaModel/CallerScan.lean`) -/
+
+open CallerScan in
+def hexArg (a : Arg) : String := hexOfString (String.ofList a)
+
+open CallerScan in
+def optHex : Option Arg → String
+  | none => "-"
+  | some a => hexArg a
+
+open CallerScan in
+def renderCalled : Called → String
+  | .otherGrep => "OtherGrep"
+  | .git v cl f =>
+    v ++ " long=" ++ ",".intercalate (cl.long.map hexArg) ++ " short=" ++ ",".intercalate (cl.short.map hexArg)
+      ++ " last=" ++ optHex cl.last ++ " file=" ++ optHex f
+
+open CallerScan in
+/-- `<n> <x arg>*n` at the head of a field list. -/
+def takeArgv : List String → Option (Argv × List String)
+  | [] => none
+  | n :: rest =>
+    match natOfField n with
+    | none => none
+    | some k =>
+      if rest.length < k then none
+      else match (rest.take k).mapM stringOfField with
+        | some args => some (args.map String.toList, rest.drop k)
+        | none => none
+
+open CallerScan in
+def takeArgvs : Nat → List String → Option (List Argv × List String)
+  | 0, fs => some ([], fs)
+  | k + 1, fs =>
+    match takeArgv fs with
+    | none => none
+    | some (a, rest) =>
+      match takeArgvs k rest with
+      | none => none
+      | some (more, rest') => some (a :: more, rest')
+
+open CallerScan in
+def parseTable (fs : List String) : Option Table := do
+  let k :: fs := fs | none
+  let k ← natOfField k
+  let (anc, fs) ← takeArgvs k fs
+  let hs :: fs := fs | none
+  let (sib, fs) ← if hs = "1" then (takeArgv fs).map (fun (a, r) => (some a, r)) else some (none, fs)
+  let m :: fs := fs | none
+  let m ← natOfField m
+  let (ns, fs) ← takeArgvs m fs
+  if fs.isEmpty then some ⟨anc, sib, ns⟩ else none
+
+open CallerScan in
+def stepScanOps (line : String) : String :=
+  match fields line with
+  | "caller.describe" :: fs =>
+    match takeArgv fs with
+    | some (argv, []) =>
+      match describe argv with
+      | .ok (.args c) => "ok args " ++ renderCalled c
+      | .ok .argError => "ok argerror"
+      | .ok .otherProcess => "ok other"
+      | .error e => "PANIC " ++ hexOfString e
+    | _ => "ERR"
+  | "caller.scan" :: fs =>
+    match parseTable fs with
+    | some t =>
+      match scan theShape t with
+      | .ok (some c) => "ok guess " ++ renderCalled c
+      | .ok none => "ok guess None"
+      | .error e => "PANIC " ++ hexOfString e
+    | none => "ERR"
+  | ["caller.scanshape"] =>
+    "ok total=" ++ (if theShape.total then "1" else "0")
+      ++ " cmd=" ++ Generated.CallerDescribe.commandAccess.1 ++ ":" ++ toString Generated.CallerDescribe.commandAccess.2
+      ++ " rest=" ++ Generated.CallerDescribe.restAccess.1 ++ ":" ++ toString Generated.CallerDescribe.restAccess.2
+      ++ " points=" ++ toString Generated.CallerDescribe.panicPoints.length
+      ++ " pointsok=" ++ (if Generated.CallerDescribe.panicPoints.all (fun p => totalKinds.contains p.2.2) then "1" else "0")
+  | _ => stepCaller line
+
+def main : IO Unit := serve stepScanOps
